@@ -11,19 +11,35 @@ namespace CnvVerif
 /-! ### `sortSE` / `mergeSorted` -/
 
 theorem mem_sortSE (l : List Row) (r : Row) : r ∈ sortSE l ↔ r ∈ l := by
-  sorry
+  unfold sortSE
+  exact List.mem_mergeSort
+
+theorem seLe_trans (a b c : Row) (h1 : seLe a b = true) (h2 : seLe b c = true) :
+    seLe a c = true := by
+  simp only [seLe, Bool.or_eq_true, Bool.and_eq_true, decide_eq_true_eq, beq_iff_eq] at *
+  omega
+
+theorem seLe_total (a b : Row) : (seLe a b || seLe b a) = true := by
+  simp only [seLe, Bool.or_eq_true, Bool.and_eq_true, decide_eq_true_eq, beq_iff_eq]
+  omega
 
 theorem sortSE_sorted (l : List Row) : StartSorted (sortSE l) := by
-  sorry
+  have h := List.pairwise_mergeSort seLe_trans seLe_total l
+  refine List.Pairwise.imp ?_ h
+  intro a b hab
+  simp only [seLe, Bool.or_eq_true, Bool.and_eq_true, decide_eq_true_eq, beq_iff_eq] at hab
+  omega
 
 theorem cov_sortSE (l : List Row) (p : Int) : cov (sortSE l) p ↔ cov l p := by
-  sorry
+  simp only [cov, mem_sortSE]
 
 theorem mergeSorted_cov (l : List Row) (p : Int) : cov (mergeSorted l) p ↔ cov l p := by
-  sorry
+  unfold mergeSorted
+  rw [mergeChrom_cov 0 (Int.le_refl 0) _ (sortSE_sorted l) p, cov_sortSE]
 
 theorem mergeSorted_canon (l : List Row) (hp : ∀ r ∈ l, r.s < r.e) : Canon (mergeSorted l) := by
-  sorry
+  unfold mergeSorted
+  exact mergeChrom_canon _ (sortSE_sorted l) (fun r hr => hp r ((mem_sortSE l r).mp hr))
 
 /-! ### tilings -/
 
@@ -33,135 +49,422 @@ def Tiles : List Row → Int → Int → Prop
   | x :: xs, a, b => x.s = a ∧ x.s ≤ x.e ∧ Tiles xs x.e b
 
 theorem Tiles.le {bins : List Row} {a b : Int} (h : Tiles bins a b) : a ≤ b := by
-  sorry
+  induction bins generalizing a with
+  | nil => simp only [Tiles] at h; omega
+  | cons x xs ih =>
+    obtain ⟨h1, h2, h3⟩ := h
+    have := ih h3
+    omega
 
 theorem Tiles.cov {bins : List Row} {a b : Int} (h : Tiles bins a b) (p : Int) :
     cov bins p ↔ a ≤ p ∧ p < b := by
-  sorry
+  induction bins generalizing a with
+  | nil =>
+    simp only [Tiles] at h
+    rw [cov_nil]
+    constructor
+    · exact False.elim
+    · intro h'; omega
+  | cons x xs ih =>
+    obtain ⟨h1, h2, h3⟩ := h
+    have hle := Tiles.le h3
+    rw [cov_cons, ih h3]
+    omega
 
 theorem Tiles.within {bins : List Row} {a b : Int} (h : Tiles bins a b) :
     ∀ x ∈ bins, a ≤ x.s ∧ x.s ≤ x.e ∧ x.e ≤ b := by
-  sorry
+  induction bins generalizing a with
+  | nil => intro x hx; cases hx
+  | cons y ys ih =>
+    obtain ⟨h1, h2, h3⟩ := h
+    have hle := Tiles.le h3
+    intro x hx
+    rcases List.mem_cons.mp hx with rfl | hx
+    · omega
+    · have := ih h3 x hx
+      omega
 
 theorem Tiles.pairwise {bins : List Row} {a b : Int} (h : Tiles bins a b) :
     bins.Pairwise (fun x y => x.e ≤ y.s) := by
-  sorry
+  induction bins generalizing a with
+  | nil => exact List.Pairwise.nil
+  | cons y ys ih =>
+    obtain ⟨h1, h2, h3⟩ := h
+    refine List.pairwise_cons.mpr ⟨?_, ih h3⟩
+    intro z hz
+    exact (Tiles.within h3 z hz).1
+
+/-- size of each bin of `splitInto` -/
+theorem cut_step (span : Int) (n : Nat) (hn : 1 ≤ n) (i : Nat) :
+    span / (n : Int) ≤ (((i + 1 : Nat) : Int) * span) / (n : Int) - ((i : Int) * span) / (n : Int) ∧
+    (((i + 1 : Nat) : Int) * span) / (n : Int) - ((i : Int) * span) / (n : Int) ≤
+      span / (n : Int) + 1 := by
+  have hnpos : (0 : Int) < (n : Int) := by omega
+  have h := ediv_add_bounds ((i : Int) * span) span n hnpos
+  have e : ((i + 1 : Nat) : Int) * span = (i : Int) * span + span := by
+    rw [Int.natCast_add, Int.add_mul]; simp
+  rw [e]
+  omega
+
+theorem tiles_cuts (r : Row) (cut : Nat → Int) (hmono : ∀ i, cut i ≤ cut (i + 1)) (a k : Nat) :
+    Tiles ((List.range' a k).map fun i => { r with s := cut i, e := cut (i + 1) })
+      (cut a) (cut (a + k)) := by
+  induction k generalizing a with
+  | zero => simp [Tiles]
+  | succ m ih =>
+    rw [List.range'_succ, List.map_cons]
+    refine ⟨rfl, hmono a, ?_⟩
+    have := ih (a + 1)
+    have e : a + 1 + m = a + (m + 1) := by omega
+    rw [e] at this
+    exact this
 
 /-- the `n ≥ 1` bins of `splitInto` tile the row -/
 theorem splitInto_tiles (r : Row) (n : Nat) (hn : 1 ≤ n) (hr : r.s ≤ r.e) :
     Tiles (splitInto r n) r.s r.e := by
-  sorry
+  have hnpos : (0 : Int) < (n : Int) := by omega
+  have hq : 0 ≤ (r.e - r.s) / (n : Int) := Int.ediv_nonneg (by omega) (by omega)
+  have hmono : ∀ i : Nat, r.s + ((i : Int) * (r.e - r.s)) / (n : Int) ≤
+      r.s + (((i + 1 : Nat) : Int) * (r.e - r.s)) / (n : Int) := by
+    intro i
+    have := cut_step (r.e - r.s) n hn i
+    omega
+  have h := tiles_cuts r (fun i => r.s + ((i : Int) * (r.e - r.s)) / (n : Int)) hmono 0 n
+  have e0 : r.s + (((0 : Nat) : Int) * (r.e - r.s)) / (n : Int) = r.s := by simp
+  have en : r.s + (((0 + n : Nat) : Int) * (r.e - r.s)) / (n : Int) = r.e := by
+    rw [Nat.zero_add, Int.mul_ediv_cancel_left _ (Int.ne_of_gt hnpos)]
+    omega
+  simp only [e0, en] at h
+  unfold splitInto
+  simp only
+  rw [List.range_eq_range']
+  exact h
 
 /-- every bin of `splitInto` has `⌊span/n⌋` or `⌊span/n⌋ + 1` bases -/
 theorem splitInto_sizes (r : Row) (n : Nat) (hn : 1 ≤ n) :
     ∀ x ∈ splitInto r n, (r.e - r.s) / (n : Int) ≤ x.e - x.s ∧ x.e - x.s ≤ (r.e - r.s) / (n : Int) + 1 := by
-  sorry
+  intro x hx
+  unfold splitInto at hx
+  simp only [List.mem_map, List.mem_range] at hx
+  obtain ⟨i, _, rfl⟩ := hx
+  have := cut_step (r.e - r.s) n hn i
+  show _ ≤ (r.s + _) - (r.s + _) ∧ (r.s + _) - (r.s + _) ≤ _
+  omega
 
 theorem splitInto_fields (r : Row) (n : Nat) :
     ∀ x ∈ splitInto r n, x.chrom = r.chrom ∧ x.gene = r.gene := by
-  sorry
+  intro x hx
+  unfold splitInto at hx
+  simp only [List.mem_map, List.mem_range] at hx
+  obtain ⟨i, _, rfl⟩ := hx
+  exact ⟨rfl, rfl⟩
 
 /-- the bin count `_split_targets` uses -/
 def nbinsOf (avg : Rat) (r : Row) : Nat :=
   (max 1 (roundHalfEven (((r.e - r.s : Int) : Rat) / avg))).toNat
 
 theorem nbinsOf_pos (avg : Rat) (r : Row) : 1 ≤ nbinsOf avg r := by
-  sorry
+  unfold nbinsOf
+  omega
+
+theorem rhe_nonneg (q : Rat) (h : 0 ≤ q) : 0 ≤ roundHalfEven q := by
+  have hf : (0 : Int) ≤ q.floor := Rat.le_floor_iff.mpr (by simpa using h)
+  unfold roundHalfEven
+  simp only
+  split
+  · exact hf
+  · split
+    · omega
+    · split <;> omega
+
+theorem spanq_nonneg (avg : Rat) (havg : 0 < avg) (x : Int) (hx : 0 ≤ x) : 0 ≤ (x : Rat) / avg := by
+  rw [Rat.div_def]
+  apply Rat.mul_nonneg
+  · exact Rat.intCast_nonneg.mpr hx
+  · exact Rat.le_of_lt (Rat.inv_pos.mpr havg)
 
 /-- `splitRow` of a region that is long enough, in closed form (no sign hypothesis: a negative
     rounded quotient cannot occur for `0 < avg`, `start ≤ end`) -/
 theorem splitRow_closed (avg : Rat) (havg : 0 < avg) (minSize : Int) (r : Row) (hr : r.s ≤ r.e)
     (h : minSize ≤ r.e - r.s) :
     splitRow avg minSize r = if nbinsOf avg r = 1 then [r] else splitInto r (nbinsOf avg r) := by
-  sorry
+  have hnn := rhe_nonneg _ (spanq_nonneg avg havg (r.e - r.s) (by omega))
+  rw [splitRow_eq avg minSize r h hnn]
+  rfl
 
 theorem splitRow_tiles (avg : Rat) (havg : 0 < avg) (minSize : Int) (r : Row) (hr : r.s ≤ r.e)
     (h : minSize ≤ r.e - r.s) : Tiles (splitRow avg minSize r) r.s r.e := by
-  sorry
+  rw [splitRow_closed avg havg minSize r hr h]
+  split
+  · exact ⟨rfl, hr, rfl⟩
+  · exact splitInto_tiles r _ (nbinsOf_pos avg r) hr
 
 /-- whatever `splitRow` returns lies inside the row (also when the row is too short: nothing) -/
 theorem splitRow_within (avg : Rat) (havg : 0 < avg) (minSize : Int) (r : Row) (hr : r.s ≤ r.e) :
     ∀ x ∈ splitRow avg minSize r, r.s ≤ x.s ∧ x.s ≤ x.e ∧ x.e ≤ r.e := by
-  sorry
+  by_cases h : minSize ≤ r.e - r.s
+  · exact (splitRow_tiles avg havg minSize r hr h).within
+  · rw [splitRow_small avg minSize r (by omega)]
+    intro x hx; cases hx
 
 theorem splitRow_pairwise (avg : Rat) (havg : 0 < avg) (minSize : Int) (r : Row) (hr : r.s ≤ r.e) :
     (splitRow avg minSize r).Pairwise (fun x y => x.e ≤ y.s) := by
-  sorry
+  by_cases h : minSize ≤ r.e - r.s
+  · exact (splitRow_tiles avg havg minSize r hr h).pairwise
+  · rw [splitRow_small avg minSize r (by omega)]
+    exact List.Pairwise.nil
 
 /-- bins of a canonical list of regions: sorted, non-overlapping -/
 theorem flatMap_splitRow_pairwise (avg : Rat) (havg : 0 < avg) (minSize : Int) (M : List Row)
     (hM : Canon M) :
     (M.flatMap (splitRow avg minSize)).Pairwise (fun x y => x.e ≤ y.s) := by
-  sorry
+  rw [List.pairwise_flatMap]
+  refine ⟨fun m hm => splitRow_pairwise avg havg minSize m (Int.le_of_lt (hM.1 m hm)), ?_⟩
+  have hpos : ∀ m ∈ M, m.s ≤ m.e := fun m hm => Int.le_of_lt (hM.1 m hm)
+  have hpw := hM.2
+  clear hM
+  induction M with
+  | nil => exact List.Pairwise.nil
+  | cons m ms ih =>
+    obtain ⟨h1, h2⟩ := List.pairwise_cons.mp hpw
+    refine List.pairwise_cons.mpr ⟨?_, ih (fun k hk => hpos k (by simp [hk])) h2⟩
+    intro k hk x hx y hy
+    have a := splitRow_within avg havg minSize m (hpos m (by simp)) x hx
+    have b := splitRow_within avg havg minSize k (hpos k (by simp [hk])) y hy
+    have := h1 k hk
+    omega
 
 /-- bins of a canonical list of regions cover exactly the regions that are long enough -/
 theorem flatMap_splitRow_cov (avg : Rat) (havg : 0 < avg) (minSize : Int) (M : List Row)
     (hM : Canon M) (p : Int) :
     cov (M.flatMap (splitRow avg minSize)) p ↔
       ∃ m ∈ M, minSize ≤ m.e - m.s ∧ m.s ≤ p ∧ p < m.e := by
-  sorry
+  constructor
+  · rintro ⟨x, hx, h1, h2⟩
+    obtain ⟨m, hm, hxm⟩ := List.mem_flatMap.mp hx
+    have hr : m.s ≤ m.e := Int.le_of_lt (hM.1 m hm)
+    by_cases h : minSize ≤ m.e - m.s
+    · have := (splitRow_tiles avg havg minSize m hr h).within x hxm
+      exact ⟨m, hm, h, by omega, by omega⟩
+    · rw [splitRow_small avg minSize m (by omega)] at hxm
+      cases hxm
+  · rintro ⟨m, hm, h, h1, h2⟩
+    have hr : m.s ≤ m.e := Int.le_of_lt (hM.1 m hm)
+    obtain ⟨x, hx, h3, h4⟩ := ((splitRow_tiles avg havg minSize m hr h).cov p).mpr ⟨h1, h2⟩
+    exact ⟨x, List.mem_flatMap.mpr ⟨m, hm, hx⟩, h3, h4⟩
 
 /-! ### a stretch of covered bases lies in one region of a canonical list -/
 
+theorem canon_sep (M : List Row) (hM : Canon M) :
+    ∀ m ∈ M, ∀ k ∈ M, m = k ∨ m.e < k.s ∨ k.e < m.s := by
+  induction M with
+  | nil => intro m hm; cases hm
+  | cons x xs ih =>
+    have h1 := (List.pairwise_cons.mp hM.2).1
+    intro m hm k hk
+    rcases List.mem_cons.mp hm with hm' | hm' <;> rcases List.mem_cons.mp hk with hk' | hk'
+    · left; rw [hm', hk']
+    · right; left; rw [hm']; exact h1 k hk'
+    · right; right; rw [hk']; exact h1 m hm'
+    · exact ih hM.tail m hm' k hk'
+
 theorem interval_in_canon (M : List Row) (hM : Canon M) (u v : Int) (huv : u < v)
     (h : ∀ p, u ≤ p → p < v → cov M p) : ∃ m ∈ M, m.s ≤ u ∧ v ≤ m.e := by
-  sorry
+  obtain ⟨m, hm, h1, h2⟩ := h u (Int.le_refl u) huv
+  refine ⟨m, hm, h1, ?_⟩
+  apply Classical.byContradiction
+  intro hn
+  obtain ⟨k, hk, h3, h4⟩ := h m.e (by omega) (by omega)
+  have hmp := hM.1 m hm
+  rcases canon_sep M hM m hm k hk with rfl | h5 | h5 <;> omega
 
 /-! ### `do_target --split` on one chromosome -/
 
 theorem nonempty_baits_pos (baits : List Row) (hb : ∀ r ∈ baits, r.s ≤ r.e) :
     ∀ r ∈ baits.filter (fun r => r.s != r.e), r.s < r.e := by
-  sorry
+  intro r hr
+  obtain ⟨h1, h2⟩ := List.mem_filter.mp hr
+  have := hb r h1
+  have hne : r.s ≠ r.e := by simpa using h2
+  omega
 
 theorem targetChrom_cov (avg : Rat) (havg : 0 < avg) (hmin : Generated.TARGET_SPLIT_MIN = 0)
     (baits : List Row) (hb : ∀ r ∈ baits, r.s ≤ r.e) (p : Int) :
     cov (targetChrom avg baits) p ↔ cov (baits.filter (fun r => r.s != r.e)) p := by
-  sorry
+  have hc := mergeSorted_canon _ (nonempty_baits_pos baits hb)
+  unfold targetChrom
+  rw [flatMap_splitRow_cov avg havg _ _ hc p, hmin, ← mergeSorted_cov]
+  constructor
+  · rintro ⟨m, hm, _, h1, h2⟩
+    exact ⟨m, hm, h1, h2⟩
+  · rintro ⟨m, hm, h1, h2⟩
+    exact ⟨m, hm, by omega, h1, h2⟩
 
 theorem targetChrom_pairwise (avg : Rat) (havg : 0 < avg) (baits : List Row)
     (hb : ∀ r ∈ baits, r.s ≤ r.e) :
     (targetChrom avg baits).Pairwise (fun x y => x.e ≤ y.s) := by
-  sorry
+  unfold targetChrom
+  exact flatMap_splitRow_pairwise avg havg _ _ (mergeSorted_canon _ (nonempty_baits_pos baits hb))
+
+theorem flatMap_congr_on {α β} (l : List α) (f g : α → List β) (h : ∀ a ∈ l, f a = g a) :
+    l.flatMap f = l.flatMap g := by
+  induction l with
+  | nil => rfl
+  | cons a t ih =>
+    rw [List.flatMap_cons, List.flatMap_cons, h a (by simp), ih (fun b hb => h b (by simp [hb]))]
 
 theorem targetChrom_closed (avg : Rat) (havg : 0 < avg) (hmin : Generated.TARGET_SPLIT_MIN = 0)
     (baits : List Row) (hb : ∀ r ∈ baits, r.s ≤ r.e) :
     targetChrom avg baits =
       (mergeSorted (baits.filter (fun r => r.s != r.e))).flatMap fun m =>
         if nbinsOf avg m = 1 then [m] else splitInto m (nbinsOf avg m) := by
-  sorry
+  have hc := mergeSorted_canon _ (nonempty_baits_pos baits hb)
+  unfold targetChrom
+  apply flatMap_congr_on
+  intro m hm
+  have hpos := hc.1 m hm
+  exact splitRow_closed avg havg _ m (by omega) (by rw [hmin]; omega)
 
 /-! ### labels -/
 
 theorem shortenGo_length (cur : List String) (cnt : Nat) (labels : List String) :
     (shortenGo cur cnt labels).length = cnt + labels.length := by
-  sorry
+  induction labels generalizing cur cnt with
+  | nil => simp [shortenGo]
+  | cons l rest ih =>
+    unfold shortenGo
+    simp only
+    split
+    · rw [ih, List.length_cons]; omega
+    · rw [List.length_append, List.length_replicate, ih, List.length_cons]; omega
 
 theorem shortenLabels_length (labels : List String) :
     (shortenLabels labels).length = labels.length := by
-  sorry
+  unfold shortenLabels
+  rw [shortenGo_length]; omega
 
 def coordsOfRows (t : Table) : List (String × Int × Int) := t.map (fun r => (r.chrom, r.s, r.e))
 
+theorem coords_zip (t : Table) (genes : List String) (h : genes.length = t.length) :
+    coordsOfRows ((t.zip genes).map (fun p => { p.1 with gene := p.2 })) = coordsOfRows t := by
+  induction t generalizing genes with
+  | nil => rfl
+  | cons r rs ih =>
+    cases genes with
+    | nil => simp at h
+    | cons g gs =>
+      have h' : gs.length = rs.length := by simpa using h
+      have := ih gs h'
+      simp only [coordsOfRows, List.zip_cons_cons, List.map_cons] at this ⊢
+      rw [this]
+
 theorem setGenes_ok (t : Table) (genes : List String) (h : genes.length = t.length) :
     ∃ t', setGenes t genes = .ok t' ∧ coordsOfRows t' = coordsOfRows t := by
-  sorry
+  refine ⟨(t.zip genes).map (fun p => { p.1 with gene := p.2 }), ?_, coords_zip t genes h⟩
+  unfold setGenes
+  rw [if_pos (by simp [h])]
+  rfl
 
 theorem setGenes_coords (t t' : Table) (genes : List String) (h : setGenes t genes = .ok t') :
     coordsOfRows t' = coordsOfRows t := by
-  sorry
+  unfold setGenes at h
+  split at h
+  · rename_i hl
+    have hl' : genes.length = t.length := by simpa using hl
+    have : t' = (t.zip genes).map (fun p => { p.1 with gene := p.2 }) := by
+      cases h; rfl
+    rw [this]
+    exact coords_zip t genes hl'
+  · cases h
+
+theorem short_len (t1 : Table) :
+    ((shortenLabels (t1.map (·.gene))).map (fun c => c.headD "")).length = t1.length := by
+  rw [List.length_map, shortenLabels_length, List.length_map]
+
+/-- the two stages of `doTarget` -/
+def annotStage (t0 : Table) (annot : Option Table) : Except String Table :=
+  match annot with
+  | none => pure t0
+  | some a =>
+    if chromNamesClash t0 a then throw "ValueError"
+    else setGenes t0 (intoRangesStr (sortTable a) t0 "-")
+
+def shortStage (short : Bool) (t1 : Table) : Except String (Table × Option (List (List String))) :=
+  if short then do
+    let cands := shortenLabels (t1.map (·.gene))
+    let t2 ← setGenes t1 (cands.map (fun c => c.headD ""))
+    pure (t2, some cands)
+  else pure (t1, none)
+
+theorem doTarget_stages (baits : Table) (annot : Option Table) (short split : Bool) (avg : Rat) :
+    doTarget baits annot short split avg =
+      (annotStage (doTargetCore baits split avg) annot >>= shortStage short) := by
+  unfold doTarget annotStage shortStage
+  cases annot with
+  | none => cases short <;> rfl
+  | some a =>
+    dsimp only
+    cases hc : chromNamesClash (doTargetCore baits split avg) a <;> cases short <;> rfl
+
+theorem annotStage_coords (t0 t1 : Table) (annot : Option Table) (h : annotStage t0 annot = .ok t1) :
+    coordsOfRows t1 = coordsOfRows t0 := by
+  unfold annotStage at h
+  split at h
+  · cases h; rfl
+  · split at h
+    · cases h
+    · exact setGenes_coords _ _ _ h
+
+theorem shortStage_coords (short : Bool) (t1 rows : Table) (c : Option (List (List String)))
+    (h : shortStage short t1 = .ok (rows, c)) : coordsOfRows rows = coordsOfRows t1 := by
+  unfold shortStage at h
+  split at h
+  · obtain ⟨t2, h2, _⟩ := setGenes_ok t1 _ (short_len t1)
+    dsimp only at h
+    rw [h2] at h
+    have hc := setGenes_coords _ _ _ h2
+    cases h
+    exact hc
+  · cases h; rfl
 
 /-- relabelling never changes the number or the coordinates of the bins -/
 theorem doTarget_coords (baits : Table) (annot : Option Table) (short split : Bool) (avg : Rat)
     (rows : Table) (c : Option (List (List String)))
     (h : doTarget baits annot short split avg = .ok (rows, c)) :
     coordsOfRows rows = coordsOfRows (doTargetCore baits split avg) := by
-  sorry
+  rw [doTarget_stages] at h
+  cases h1 : annotStage (doTargetCore baits split avg) annot with
+  | error e => rw [h1] at h; cases h
+  | ok t1 =>
+    rw [h1] at h
+    rw [shortStage_coords short t1 rows c h, annotStage_coords _ _ _ h1]
 
 /-- label shortening and annotation never fail for want of a label: the only refusal is an
     annotation file that shares no chromosome name with the baits -/
 theorem doTarget_ok (baits : Table) (annot : Option Table) (short split : Bool) (avg : Rat)
     (h : ∀ a, annot = some a → chromNamesClash (doTargetCore baits split avg) a = false) :
     ∃ rows c, doTarget baits annot short split avg = .ok (rows, c) := by
-  sorry
+  rw [doTarget_stages]
+  have h1 : ∃ t1, annotStage (doTargetCore baits split avg) annot = .ok t1 := by
+    unfold annotStage
+    cases annot with
+    | none => exact ⟨_, rfl⟩
+    | some a =>
+      simp only
+      rw [h a rfl]
+      obtain ⟨t', ht, _⟩ := setGenes_ok (doTargetCore baits split avg)
+        (intoRangesStr (sortTable a) (doTargetCore baits split avg) "-") (intoRanges_length _ _ _)
+      exact ⟨t', by simpa using ht⟩
+  obtain ⟨t1, ht1⟩ := h1
+  rw [ht1]
+  show ∃ rows c, shortStage short t1 = .ok (rows, c)
+  unfold shortStage
+  cases short with
+  | false => exact ⟨_, _, rfl⟩
+  | true =>
+    obtain ⟨t2, h2, _⟩ := setGenes_ok t1 _ (short_len t1)
+    simp only [if_true]
+    rw [h2]
+    exact ⟨_, _, rfl⟩
 
 end CnvVerif
